@@ -636,3 +636,41 @@ def run(ck):
     ck.require(nwr >= 10, "writers taking a std::ostream&: %d" % nwr)
     ck.ob("C05-R7", "writers-with-a-caller-stream", True, "", "", "%d library functions take a std::ostream&; every base change among them judged above" % nwr, nontrivial=False)
 
+    # ---------------- R9: a moved writer is the writer ----------------
+    ck.rule("C05-R9", "E exhaustiveness over the members (hand-written move operations)",
+            "handlers park ResponseWriter / ResponseStream objects (move them into a container, a lambda, another thread): the hand-written "
+            "move constructor and move assignment of ResponseStream, ResponseWriter and DynamicStreamBuf carry every data member -- a "
+            "member they forget (an 'already ended' flag, a byte count) starts from its default in the moved-to object, which then "
+            "terminates the stream a second time or frames with the wrong count", 3)
+    nmv = 0
+    for cn in (RS.rstrip(":"), RW.rstrip(":"), DSB.rstrip(":")):
+        c_ = prog.cls(cn)
+        ck.require(c_ is not None, "class %s not found" % cn)
+        short = cn.rsplit("::", 1)[-1]
+        fields = {x["q"]: x for x in c_["fields"]}
+        seen_kind = set()
+        for f_ in prog.funcs.values():
+            if not f_.blocks or strip_tmpl(f_.cls or "") != cn or len(f_.params) != 1 or "&&" not in (f_.params[0].get("type") or "") or short not in (f_.params[0].get("type") or ""):
+                continue
+            kind = "move-constructor" if f_.d.get("ctor") else ("move-assignment" if f_.base.endswith("::operator=") else None)
+            if kind is None or kind in seen_kind:
+                continue
+            seen_kind.add(kind)
+            written = set()
+            ff_ = prog.flat(f_)         # (a helper both operations were given since -- `moveFrom(other)` -- is part of them)
+            for g_ in [ff_] + [h_ for c2_ in ff_.events("call") if not c2_.get("inlined") for h_ in prog.resolve_call(c2_) if h_.blocks and strip_tmpl(h_.cls or "") == cn]:
+              for e in g_.events(("init", "assign", "call")):
+                if e["k"] == "init" and e.get("f"):
+                    written.add(strip_tmpl(e["f"]))
+                elif e["k"] == "assign" and e["lhs"].get("f"):
+                    written.add(strip_tmpl(e["lhs"]["f"]))
+                elif e["k"] == "call" and (e.get("recv") or {}).get("f") and (e.get("op") == "=" or (e.get("callee") or "").rsplit("::", 1)[-1] in ("swap", "store", "reset", "assign")):
+                    written.add(strip_tmpl(e["recv"]["f"]))
+            # a delegating move (`*this = std::move(other)` / swap(other)) covers what its target covers: not used here, so not modelled
+            missing = sorted(q.rsplit("::", 1)[-1] for q in fields if strip_tmpl(q) not in written)
+            nmv += 1
+            ck.ob("C05-R9", "%s/%s-carries-every-member" % (short, kind), not missing, f_.loc, f_,
+                  "%d members, all carried over" % len(fields) if not missing else
+                  "the %s of %s does not carry %s: in the moved-to object it starts from its default" % (kind, short, missing))
+    ck.require(nmv >= 3, "hand-written move operations of the response classes found: %d" % nmv)
+
